@@ -70,6 +70,9 @@ W = {
     "D24-parenthesised-string-operand": ("D24-string-equality-rejected", ["C11"], {"C11": "C11"},
                                          prog([Q, cond(cmp_("<", ("paren", ("str", "a")), ("str", "b")))]),
                                          ("span_stmt", 0, (1,))),
+    "D28-nested-array-element": ("D28-nested-array-elements-dropped", ["C10"], {"C10": "C10"},
+                                 prog([svc([("lit", "Fq", fq_json(nums=("arr", [n(1), n(2), ("arr", [n(3)])])))])]),
+                                 ("span_stmt", 0, (0,))),
     "D21-array-length-by-name": ("D21-array-length-error-without-line", ["C19"], {"C19": "C19"},
                                  prog([svc()], structs=faults.SUPPORT_STRUCTS + [
                                      {"name": "Fnew", "attrs": [("a", faults.NUM), ("zz", ("array", "number", "k"))]}]),
